@@ -32,6 +32,7 @@ Dims ==
     minQe    |-> <<"zero", "equal", "below", "betweenEndian", "above", "max", "big65536", "bigMax32">>,
     minPce   |-> <<"zero", "equal", "below", "betweenEndian", "above", "max", "big65536", "bigMax32">>,
     minTee   |-> <<"unset", "allEqual", "allBelow", "empty", "aboveFirst", "aboveSecond", "aboveLast", "belowThenAbove", "aboveThenBelow",
+                   "above0Below1", "below0Above1", "aboveOnlyLastBelowRest",
                    "len1", "len15", "len17", "len17Above">>,
     xfamBits |-> <<"base">> \o BitStates("set") \o <<"clear0", "clear1">>,
     tdAttrBits |-> <<"zero">> \o BitStates("set") ]
@@ -76,7 +77,7 @@ Reading(d, v) ==
             [] OTHER -> "malformed")                          \* does not fit 16 bits
     [] d = "minTee" ->
          (CASE v \in {"unset", "allEqual", "allBelow", "empty"} -> "pass"
-            [] v \in {"aboveFirst", "aboveSecond", "aboveLast", "belowThenAbove", "aboveThenBelow"} -> "miss"   \* component-wise, not lexicographic
+            [] v \in {"aboveFirst", "aboveSecond", "aboveLast", "belowThenAbove", "aboveThenBelow", "above0Below1", "below0Above1", "aboveOnlyLastBelowRest"} -> "miss"   \* component-wise, not lexicographic
             [] OTHER -> "malformed")
     [] d = "xfamBits" ->
          (CASE v = "base" -> "pass" [] v \in {"clear0", "clear1"} -> "miss"
